@@ -2,6 +2,7 @@ package rules
 
 import (
 	"fmt"
+	"go/token"
 	"strings"
 
 	"golang.org/x/tools/go/ssa"
@@ -15,8 +16,8 @@ func init() {
 		ID:    "C03",
 		Title: "Flush and merge never change what queries return",
 		Decides: "the snapshot transition functions (copyAllTo / merge / remove in measure, stream, trace, sidx) take a reference on every part they carry over, start the new snapshot with one reference, and in remove every part is either carried over (with a reference) or marked for removal — none silently vanishes or is carried without a pin; " +
-			"the table's snapshot is replaced only by the introduce* functions, which are called only from the table's single introducer loop; every block loaded during a measure/stream merge has its conflicting tag columns renamed before it is used; part-level and primary-block time ranges written by the block writers are running min/max of the blocks they cover (shared with C08).",
-		NotDecided: "that the merged part's contents equal the version-resolved union of its inputs, block-split boundaries, version arithmetic in mergeTwoBlocks, what a query observes during maintenance.",
+			"the table's snapshot is replaced only by the introduce* functions, which are called only from the table's single introducer loop; every block loaded during a measure/stream merge has its conflicting tag columns renamed before it is used; part-level and primary-block time ranges written by the block writers are running min/max of the blocks they cover (shared with C08); wherever two rows' versions are compared to resolve a duplicate timestamp (mergeTwoBlocks, queryResult.Less, dataPoints.Less) the versions are read at exactly the indices whose timestamps were found equal.",
+		NotDecided: "that the merged part's contents equal the version-resolved union of its inputs, block-split boundaries, which of two versions wins, tag-set handling of the fast append path, what a query observes during maintenance.",
 		Technique:  "dominance of reference acquisition over carry-over appends, per-iteration path search, who-may-call confinement of the snapshot writer, CFG must-follow",
 		Run:        runC03,
 	})
@@ -223,5 +224,107 @@ func runC03(c *core.Ctx) {
 		if !bad {
 			r.Hold(rule, construct, r.fpos(f), fmt.Sprintf("%d load site(s)", len(load)))
 		}
+	}
+
+	// 4. version tie-break reads the rows whose timestamps were found equal
+	{
+		rule := "c03.version-index-agreement"
+		elemOf := func(v ssa.Value, field string) (string, bool) {
+			u, ok := v.(*ssa.UnOp)
+			if !ok || u.Op != token.MUL {
+				return "", false
+			}
+			ia, ok := u.X.(*ssa.IndexAddr)
+			if !ok {
+				return "", false
+			}
+			var fld ssa.Value
+			if l, ok := ia.X.(*ssa.UnOp); ok && l.Op == token.MUL {
+				fld = l.X
+			} else {
+				fld = ia.X
+			}
+			if fv := ssax.FieldOf(fld); fv == nil || fv.Name() != field {
+				return "", false
+			}
+			return ssax.Canon(ia), true
+		}
+		pairOf := func(v ssa.Value, field string) ([2]string, bool) {
+			bo, ok := v.(*ssa.BinOp)
+			if !ok {
+				return [2]string{}, false
+			}
+			a, ok1 := elemOf(bo.X, field)
+			b, ok2 := elemOf(bo.Y, field)
+			if !ok1 || !ok2 {
+				return [2]string{}, false
+			}
+			if b < a {
+				a, b = b, a
+			}
+			return [2]string{a, b}, true
+		}
+		for _, f := range r.P.ModuleFuncs(sibM.pkg, sibS.pkg, sibT.pkg, sibX.pkg) {
+			for _, b := range f.Blocks {
+				for _, in := range b.Instrs {
+					bo, ok := in.(*ssa.BinOp)
+					if !ok {
+						continue
+					}
+					switch bo.Op {
+					case token.LSS, token.GTR, token.LEQ, token.GEQ:
+					default:
+						continue
+					}
+					vp, ok := pairOf(bo, "versions")
+					if !ok {
+						continue
+					}
+					// dominating equality of two timestamps elements
+					var doms [][2]string
+					for _, gb := range f.Blocks {
+						gif, ok := gb.Instrs[len(gb.Instrs)-1].(*ssa.If)
+						if !ok {
+							continue
+						}
+						gc, ok := gif.Cond.(*ssa.BinOp)
+						if !ok || gc.Op != token.EQL && gc.Op != token.NEQ {
+							continue
+						}
+						tp, ok := pairOf(gc, "timestamps")
+						if !ok {
+							continue
+						}
+						eq := gb.Succs[0]
+						if gc.Op == token.NEQ {
+							eq = gb.Succs[1]
+						}
+						if len(eq.Preds) == 1 && (eq == b || eq.Dominates(b)) {
+							doms = append(doms, tp)
+						}
+					}
+					if len(doms) == 0 {
+						continue
+					}
+					construct := ssax.FuncName(f) + ": versions compared at the indices whose timestamps were found equal"
+					want := [2]string{strings.ReplaceAll(vp[0], ".versions", ".timestamps"), strings.ReplaceAll(vp[1], ".versions", ".timestamps")}
+					if want[1] < want[0] {
+						want[0], want[1] = want[1], want[0]
+					}
+					match := false
+					for _, d := range doms {
+						if d == want {
+							match = true
+						}
+					}
+					if match {
+						r.Hold(rule, construct, r.pos(in), want[0]+" == "+want[1])
+					} else {
+						r.Violate(rule, construct, r.pos(in), fmt.Sprintf("the tie-break compares %s with %s, but the rows found to share a timestamp are %s and %s: another row's version decides which duplicate survives the merge", vp[0], vp[1], doms[0][0], doms[0][1]))
+					}
+				}
+			}
+		}
+		r.Floor(rule, 3)
 	}
 }
